@@ -27,6 +27,40 @@ CDEF_FUNC_RE = re.compile(
 )
 
 
+def _split_top(text, sep=","):
+    out, depth, cur = [], 0, ""
+    for ch in text:
+        if ch in "([{":
+            depth += 1
+        elif ch in ")]}":
+            depth -= 1
+        if ch == sep and depth == 0:
+            out.append(cur)
+            cur = ""
+        else:
+            cur += ch
+    out.append(cur)
+    return [x.strip() for x in out]
+
+
+MULTI_RE = re.compile(r"^(?P<ind>\s*)cdef\s+(?P<type>" + TYPE_RE + r")\s+(?P<rest>[A-Za-z_]\w*\s*(?:=|,).*)$")
+
+
+def _declarators(code):
+    """`cdef T a = e1, b = e2, c`  ->  (indent, T, [(a, 'e1'), (b, 'e2'), (c, None)]) or None"""
+    mm = MULTI_RE.match(code)
+    if not mm:
+        return None
+    parts = _split_top(mm.group("rest"))
+    decls = []
+    for part in parts:
+        m2 = re.match(r"^([A-Za-z_]\w*)\s*(?:=\s*(.+))?$", part, re.S)
+        if not m2:
+            return None
+        decls.append((m2.group(1), m2.group(2)))
+    return mm.group("ind"), mm.group("type"), decls
+
+
 class PyxInfo:
     """Side table for one converted .pyx module."""
 
@@ -244,6 +278,18 @@ def convert(src, filename="<pyx>"):
         # ---- cdef local declarations
         if stripped.startswith("cdef "):
             mm = DECL_RE.match(code)
+            multi = _declarators(code) if (not mm or (mm.group("init") and "," in mm.group("init"))) else None
+            if multi is not None and len(multi[2]) > 1 and any(init is not None for _, init in multi[2]):
+                # cdef T a = e1, b = e2   (several declarators, each with its own initialiser)
+                if cur_func is None:
+                    raise PyxFrontError("%s:%d: module-level cdef variable not supported" % (filename, i + 1))
+                ind_, typ_, decls = multi
+                for nm, _init in decls:
+                    info.functions[cur_func]["locals"][nm] = typ_
+                stmts_ = ["%s = %s" % (nm, init_) for nm, init_ in decls if init_ is not None]
+                out.append(ind_ + "; ".join(stmts_) if stmts_ else ind_ + "pass")
+                i += 1
+                continue
             if not mm:
                 raise PyxFrontError("%s:%d: unparsable cdef %r" % (filename, i + 1, stripped))
             names = [x.strip() for x in mm.group("names").split(",")]
